@@ -655,14 +655,51 @@ def cue_doc_text(S, t, v):
 # ----------------------------------------------------------------------------------------------
 # TLC: catalogue and cases
 # ----------------------------------------------------------------------------------------------
-def load_catalogue(ctx):
-    r = ctx.run_tlc("SemanticsMC", "SemanticsMC.cfg", workers=4, timeout=300,
-                    constants={"Mode": '"index"', "Ids": "{}", "Fuel": 3})
+def _mc(deep):
+    return ("SemanticsDeepMC", "SemanticsDeepMC.cfg") if deep else ("SemanticsMC", "SemanticsMC.cfg")
+
+
+def _extra_file(ctx, extra):
+    d = ctx.sub("extra")
+    p = os.path.join(d, "extra.json")
+    json.dump([{"schema": e["schema"], "leaf": e["leaf"], "pos": e["pos"], "cons": bool(e.get("cons", True))} for e in (extra or [])], open(p, "w"))
+    return p
+
+
+def load_catalogue(ctx, deep=False, extra=None):
+    """deep=False: the catalogue of SemanticsMC (both tiers of every check that does not ask for more).
+    deep=True: SemanticsDeepMC = the same catalogue as a prefix + the thorough-tier sections + `extra` entries
+    (seeded draws of SemanticsSim, or the schema of a replay file)."""
+    mod, cfg = _mc(deep)
+    consts = {"Mode": '"index"', "Ids": "{}", "Fuel": 3}
+    files = None
+    if deep:
+        consts["TwoIds"] = "{}"
+        files = {"extra.json": _extra_file(ctx, extra)}
+    r = ctx.run_tlc(mod, cfg, workers=4, timeout=300, constants=consts, files=files)
     cat = {o["id"]: o for o in core.tagged_lines(r["out"], "INDEX")}
     if len(cat) != r["distinct"]:
-        raise core.Inconclusive("SemanticsMC index: %d INDEX lines for %d states" % (len(cat), r["distinct"]))
+        raise core.Inconclusive("%s index: %d INDEX lines for %d states" % (mod, len(cat), r["distinct"]))
     os.remove(r["out"])
     return cat
+
+
+def sim_draw(ctx, n, max_lvl=5, traces=60):
+    """Seeded draws from the unbounded catalogue SemanticsSim (tlc -simulate, -seed = ctx.seed): n distinct schemas,
+    deeper ones preferred. Returns catalogue entries (schema, leaf, pos, cons)."""
+    r = ctx.run_tlc("SemanticsSim", "SemanticsSim.cfg", workers=1, timeout=600, simulate="num=%d" % traces, depth=max_lvl + 1,
+                    constants={"MaxLvl": max_lvl}, files={"extra.json": _extra_file(ctx, [])})
+    seen, pool = set(), []
+    for e in core.tagged_lines(r["out"], "SIM"):
+        k = dumps(e["schema"])
+        if k not in seen and e["lvl"] >= 2:
+            seen.add(k)
+            pool.append(e)
+    os.remove(r["out"])
+    rng = random.Random(ctx.seed)
+    rng.shuffle(pool)
+    pool.sort(key=lambda e: -min(e["lvl"], 4))     # levels 4 and 5 first, then 3, then 2
+    return pool[:n]
 
 
 def select_schemas(ctx, cat, n, must=()):
@@ -699,16 +736,21 @@ def select_schemas(ctx, cat, n, must=()):
     return sorted(chosen)
 
 
-def emit_cases(ctx, ids):
-    r = ctx.run_tlc("SemanticsMC", "SemanticsMC.cfg", workers=8, timeout=1200,
-                    constants={"Mode": '"cases"', "Ids": "{%s}" % ",".join(str(i) for i in ids), "Fuel": 3})
+def emit_cases(ctx, ids, deep=False, two_ids=(), fuel=3, extra=None):
+    mod, cfg = _mc(deep)
+    consts = {"Mode": '"cases"', "Ids": "{%s}" % ",".join(str(i) for i in ids), "Fuel": fuel}
+    files = None
+    if deep:
+        consts["TwoIds"] = "{%s}" % ",".join(str(i) for i in two_ids)
+        files = {"extra.json": _extra_file(ctx, extra)}
+    r = ctx.run_tlc(mod, cfg, workers=16 if deep else 8, timeout=2400, constants=consts, files=files)
     cases = collections.defaultdict(list)
     n = 0
     for c in core.tagged_lines(r["out"], "CASE"):
         cases[c["id"]].append(c)
         n += 1
     if n != r["distinct"]:
-        raise core.Inconclusive("SemanticsMC cases: %d CASE lines for %d states" % (n, r["distinct"]))
+        raise core.Inconclusive("%s cases: %d CASE lines for %d states" % (mod, n, r["distinct"]))
     os.remove(r["out"])
     for i in cases:
         cases[i].sort(key=lambda c: (c["f"] != "base", c["f"], c["p"], dumps(c["doc"])))
@@ -753,6 +795,9 @@ class Batch:
         self.timing = {}
         self.unused_imports_removed = []   # (pkg, import)
         self.tlc_cases = None
+        self.deep = False
+        self.extra = []
+        self.two_ids = []
 
 
 def generate(ctx, batch, go_flags=None, extra_languages=(), formats=FORMATS):
@@ -1046,20 +1091,42 @@ def ref_validate(ctx, batch, items):
 # ----------------------------------------------------------------------------------------------
 # the common batch
 # ----------------------------------------------------------------------------------------------
-def run_batch(ctx, nquick=52, go_flags=None, extra_languages=(), formats=FORMATS, select=None, must=()):
+NSIM = 240          # seeded draws from SemanticsSim per thorough run
+MAX_TWO = 900       # schemas whose two-place documents are enumerated
+
+
+def run_batch(ctx, nquick=52, go_flags=None, extra_languages=(), formats=FORMATS, select=None, must=(), deep=False, extra=None):
     """Catalogue -> selection -> cases -> generation -> build -> driver binary. Returns a Batch.
 
     select(cat) may return the list of ids to use (later properties pick schemas by tag, e.g. defaults).
+    deep=True (thorough tier of C01/C08/C13): SemanticsDeepMC's catalogue, seeded SemanticsSim draws and two-place documents.
     """
     if ctx.worker is None:
         ctx.build_worker()
     b = Batch()
-    b.cat = load_catalogue(ctx)
+    b.deep = deep
+    if deep and extra is None:
+        extra = sim_draw(ctx, NSIM)
+    b.extra = extra or []
+    b.cat = load_catalogue(ctx, deep=deep, extra=extra)
     if select is not None:
         b.ids = sorted(select(b.cat))
     else:
         b.ids = select_schemas(ctx, b.cat, nquick if ctx.quick() else len(b.cat), must)
-    b.cases, b.tlc_cases = emit_cases(ctx, b.ids)
+    if deep:
+        # two-place documents for the constraint-carrying, non-fixed schemas; deeper reference chains need more fuel,
+        # recursive schemas keep 3 (their documents grow with it)
+        two = [i for i in b.ids if b.cat[i]["cons"] and b.cat[i]["pos"] != "fixed"][:MAX_TWO]
+        rec = [i for i in b.ids if "recursive" in b.cat[i]["pos"] or b.cat[i]["leaf"] in ("tree", "kitchen-sink")]
+        rest = [i for i in b.ids if i not in set(rec)]
+        b.two_ids = two
+        c1, r1 = emit_cases(ctx, rest, deep=True, two_ids=two, fuel=5, extra=extra)
+        c2, r2 = emit_cases(ctx, rec, deep=True, two_ids=two, fuel=3, extra=extra) if rec else ({}, None)
+        b.cases = dict(c1)
+        b.cases.update(c2)
+        b.tlc_cases = r1
+    else:
+        b.cases, b.tlc_cases = emit_cases(ctx, b.ids)
     missing = [i for i in b.ids if not b.cases.get(i)]
     if missing:
         raise core.Inconclusive("no documents for schemas %s" % missing[:5])
@@ -1085,6 +1152,11 @@ STRICT_FAULTS = {"AddUndeclared": "undeclared-field", "DropRequired": "missing-r
                  "NullRequired": "null-required", "WrongType": "wrong-type"}
 JUDGED_LABELS = {"base", "alt", "BreakBound", "DropDefaulted"} | set(STRICT_FAULTS)
 NOENC = object()
+
+
+def parts(label):
+    """Labels of two-place documents are "A+B"."""
+    return label.split("+")
 
 
 def _paths(vres, schema):
@@ -1139,21 +1211,22 @@ def observe_docs(ctx, batch, reaccept=True):
             o["verrs_strict"] = _paths(r.get("validate_strict"), schema) if not o["strict_rejects"] else None
             o["enc"] = r["enc"] if (o["std_ok"] and "enc" in r and not r.get("enc_err")) else NOENC
             label = c["f"]
-            if label != "AddUndeclared" and racc != c["accepts"]:
+            lp = parts(label)
+            if "AddUndeclared" not in lp and racc != c["accepts"]:
                 # DESIGN 7 rule 4: the validators are the authority; the case is dropped and counted
                 o["dropped"] = "spec-validator-disagree"
-            if label == "BreakBound" and not o["std_ok"]:
+            if "BreakBound" in lp and not o["std_ok"] and not (set(lp) & set(STRICT_FAULTS)):
                 # the generated Go type cannot hold the value at all (e.g. CUE `int64 & >=0` becomes uint64): the bound is enforced
                 # by the type, no Go value exists that Validate() could be asked about; permissive reading, counted
                 o["dropped"] = "bound-enforced-by-go-type"
             accepted = c["accepts"] and racc is True and o["dropped"] is None
-            judged = label in JUDGED_LABELS and o["dropped"] is None
+            judged = all(x in JUDGED_LABELS for x in lp) and o["dropped"] is None
             o["judge"] = {
                 "accepted": accepted,
                 "strict": judged and o["has_strict"],
                 # DropDefaulted: the document lacks the field while the Go value holds a zero value there; C08 speaks about the value
-                "validate": judged and label != "DropDefaulted" and not c["strictRejects"] and o["verrs"] is not None,
-                "validateStrict": judged and label != "DropDefaulted" and not c["strictRejects"] and o["has_strict"] and o["verrs_strict"] is not None,
+                "validate": judged and "DropDefaulted" not in lp and not c["strictRejects"] and o["verrs"] is not None,
+                "validateStrict": judged and "DropDefaulted" not in lp and not c["strictRejects"] and o["has_strict"] and o["verrs_strict"] is not None,
             }
             lst.append(o)
         obs[u["pkg"]] = lst
@@ -1215,6 +1288,14 @@ def _slug(msg, words=5):
     return "-".join(re.findall(r"[a-z]+", msg)[:words]) or "error"
 
 
+def _site(line):
+    line = re.sub(r"\bresource\.\w+", "resource.F", line)
+    line = re.sub(r"\b(result|i|key|parsedMap|partialArray|partialMap)\d+\b", r"\1N", line)
+    line = re.sub(r"\b[A-Z]\w*\{\}", "T{}", line)
+    line = re.sub(r"\s+", " ", line).strip()
+    return line[:90] or "?"
+
+
 def reject_class(o, which, entry, schema):
     """Witness class of a decoder refusal, computed from what the decoder said (never from the input's label):
     (message class, position class). which = "strict" | "std"."""
@@ -1222,7 +1303,10 @@ def reject_class(o, which, entry, schema):
     fam = entry["leaf"] + "@fixed" if entry["pos"] == "fixed" else entry["pos"]
     pan = rec.get(which + "_panic")
     if pan:
-        return "panic:" + _slug(pan), fam
+        # witness class of a panic: its kind and the emitted statement it happened in (identifiers normalised),
+        # not the schema: the same template line panics whatever the surrounding shape
+        msg, _, site = pan.partition(" @@ ")
+        return "panic:" + _slug(msg), "at:" + _site(site)
     paths = rec.get("strict_paths") if which == "strict" else None
     if paths:
         # several errors come in Go map order: pick a canonical one so that the signature is stable
@@ -1272,15 +1356,22 @@ def judge_docs(batch, obs, clauses):
                                              "ref_accepts": o["ref"], "reaccepted": o["reaccepted"]}})
 
             if j["strict"] and o["strict_rejects"] != c["strictRejects"]:
+                lp = parts(c["f"])
                 if c["strictRejects"]:
-                    clause = STRICT_FAULTS.get(c["f"], c["f"]) + "-accepted"
-                    if c["f"] == "WrongType":
+                    faults = sorted({STRICT_FAULTS[x] for x in lp if x in STRICT_FAULTS})
+                    clause = "+".join(faults) + "-accepted"
+                    if lp == ["WrongType"]:
                         clause += ":" + kind
                     spos = pos
                 else:
                     mc, spos = reject_class(o, "strict", entry, schema)
                     # the witness class is what the decoder said and where; only the defaulted-field case is named after the input
-                    clause = ("missing-defaulted-rejected:" + kind) if c["f"] == "DropDefaulted" else ("rejected:" + mc)
+                    if "DropDefaulted" in lp and mc == "missing-required":
+                        sp_ = sorted(o["rec"].get("strict_paths") or [], key=lambda e: (e["path"], e["msg"]))
+                        dkind = walk(schema, norm_path(sp_[0]["path"], schema), c["py"])[1] if sp_ else kind
+                        clause = "missing-defaulted-rejected:" + dkind
+                    else:
+                        clause = "rejected:" + mc
                 add("Strict", "C08/go/Strict/%s/%s" % (clause, spos),
                     "strict decoder %s %s (label %s at %s): %s" % ("accepts" if c["strictRejects"] else "rejects", dumps(c["py"]), c["f"],
                                                                     ".".join(c["p"]) or "<root>", o["rec"].get("strict_err")))
@@ -1377,29 +1468,78 @@ class TraceWriter:
         u = self.batch.units[pkg]
         self.add(key, {"kind": "eq", "si": self.si(u["id"]), "pkg": pkg, "encs": [py_to_jv(e) for e in encs], "m": m})
 
+    SHARD = 40000
+
     def validate(self, strict=False, allow_violation=False):
-        """Run SemanticsTrace; returns {record index (0-based): set(violated)}."""
+        """Run SemanticsTrace; returns ({record index (0-based): set(violated)}, last TLC result). Long traces are cut into
+        shards validated by parallel TLC processes (each record is judged on its own)."""
         self.f.close()
         sp = os.path.join(self.dir, "schemas.json")
         json.dump(self.schemas, open(sp, "w"))
         if not self.keys:
             return {}, None
-        r = self.ctx.run_tlc("SemanticsTrace", "SemanticsTrace.cfg", workers=1, timeout=3000,
-                             files={"trace.ndjson": self.path, "schemas.json": sp},
-                             constants={"Strict": "TRUE" if strict else "FALSE"}, allow_violation=allow_violation)
         if strict:
+            r = self.ctx.run_tlc("SemanticsTrace", "SemanticsTrace.cfg", workers=1, timeout=3000,
+                                 files={"trace.ndjson": self.path, "schemas.json": sp},
+                                 constants={"Strict": "TRUE"}, allow_violation=allow_violation)
             return None, r
-        consumed = None
-        for line in open(r["out"], errors="replace"):
-            m = re.match(r'^<<"CONSUMED", (\d+)>>', line)
-            if m:
-                consumed = int(m.group(1))
-        if consumed != len(self.keys):
-            raise core.Inconclusive("SemanticsTrace consumed %s of %d records" % (consumed, len(self.keys)))
+        n = len(self.keys)
+        shards = []
+        if n <= self.SHARD:
+            shards.append((0, n, self.path))
+        else:
+            with open(self.path) as f:
+                start = 0
+                while start < n:
+                    end = min(n, start + self.SHARD)
+                    sp_i = os.path.join(self.dir, "shard-%d.ndjson" % start)
+                    with open(sp_i, "w") as out:
+                        for _ in range(end - start):
+                            out.write(f.readline())
+                    shards.append((start, end, sp_i))
+                    start = end
+        import threading
+        from concurrent.futures import ThreadPoolExecutor
+        lock = threading.Lock()
+        ctx = self.ctx
+
+        def one(sh):
+            start, end, path = sh
+            with lock:
+                copy = os.path.join(ctx.sub("schemas"), "schemas.json")
+                shutil.copy(sp, copy)
+            r = ctx.run_tlc("SemanticsTrace", "SemanticsTrace.cfg", workers=1, timeout=3000,
+                            files={"trace.ndjson": path, "schemas.json": copy}, constants={"Strict": "FALSE"})
+            consumed = None
+            out = {}
+            for line in open(r["out"], errors="replace"):
+                m = re.match(r'^<<"CONSUMED", (\d+)>>', line)
+                if m:
+                    consumed = int(m.group(1))
+            if consumed != end - start:
+                raise core.Inconclusive("SemanticsTrace consumed %s of %d records" % (consumed, end - start))
+            for f in core.tagged_lines(r["out"], "FAIL"):
+                out[start + f["l"] - 1] = set(f["violated"])
+            os.remove(r["out"])
+            return out, r
+
+        # ctx.sub / ctx.tlc_runs are shared: serialise directory creation
+        orig_sub = ctx.sub
+
+        def locked_sub(name):
+            with sublock:
+                return orig_sub(name)
+        sublock = threading.Lock()
+        ctx.sub = locked_sub
+        try:
+            with ThreadPoolExecutor(max_workers=min(6, len(shards))) as ex:
+                results = list(ex.map(one, shards))
+        finally:
+            ctx.sub = orig_sub
         out = {}
-        for f in core.tagged_lines(r["out"], "FAIL"):
-            out[f["l"] - 1] = set(f["violated"])
-        return out, r
+        for o, _ in results:
+            out.update(o)
+        return out, results[-1][1]
 
 
 def selftest_binding(ctx, batch, sample):
@@ -1433,13 +1573,16 @@ def docs_check(ctx, pid, clauses, assumptions, must=(), go_flags=None):
     replay = None
     select = None
     formats = FORMATS
+    deep = not ctx.quick()
+    extra = None
     if ctx.replay:
         replay = json.load(open(ctx.replay))["replay"]
-        select = lambda cat: [replay["schema_id"]]
+        # the schema travels with the replay file (it may be a seeded draw): it is appended to the deep catalogue and found by value
+        deep = True
+        extra = [{"schema": replay["schema"], "leaf": replay.get("leaf", "replay"), "pos": replay.get("pos", "replay"), "cons": True}]
+        select = lambda cat: [min(i for i, e in cat.items() if e["schema"] == replay["schema"])]
         formats = (replay["format"],)
-    batch = run_batch(ctx, select=select, formats=formats, must=must, go_flags=go_flags)
-    if replay and batch.cat[replay["schema_id"]]["schema"] != replay["schema"]:
-        raise core.Inconclusive("the catalogue changed: schema %d is no longer the replay's schema" % replay["schema_id"])
+    batch = run_batch(ctx, select=select, formats=formats, must=must, go_flags=go_flags, deep=deep, extra=extra)
     obs = observe_docs(ctx, batch, reaccept=("ReAccept" in clauses))
     fails = judge_docs(batch, obs, clauses)
     if replay:
@@ -1496,8 +1639,12 @@ def docs_check(ctx, pid, clauses, assumptions, must=(), go_flags=None):
                 per_pos[tok] += 1
             if pid == "C08":
                 if c["strictRejects"]:
-                    per_clause["strict:" + STRICT_FAULTS.get(c["f"], c["f"])] += 1
-                elif c["f"] in ("base", "alt"):
+                    for x in parts(c["f"]):
+                        if x in STRICT_FAULTS:
+                            per_clause["strict:" + STRICT_FAULTS[x]] += 1
+                    if "+" in c["f"]:
+                        per_clause["strict:two-place"] += 1
+                elif set(parts(c["f"])) <= {"base", "alt"}:
                     per_clause["strict:valid-accepted"] += 1
                 if j["validate"] and c["validateErrs"]:
                     per_clause["validate:violated"] += 1
@@ -1524,7 +1671,7 @@ def docs_check(ctx, pid, clauses, assumptions, must=(), go_flags=None):
     unjudged = collections.Counter()
     for pkg, lst in obs.items():
         for o in lst:
-            if o["case"]["f"] == "NonMember" and not o["dropped"]:
+            if "NonMember" in parts(o["case"]["f"]) and not o["dropped"]:
                 unjudged["strict_rejects" if o["strict_rejects"] else "strict_accepts"] += 1
                 if o["verrs"] is not None:
                     unjudged["validate_reports" if o["verrs"] else "validate_silent"] += 1
